@@ -69,6 +69,7 @@ def run_one(entry, evidence_dir):
             env = dict(os.environ)
             env["INDILINT_REPO"] = d
             env["INDILINT_EVIDENCE_DIR"] = evidence_dir
+            env["INDILINT_NO_SELFTEST"] = "1"
             pr = subprocess.run(["/venv/bin/python", "-m", "indilint.cli", prop, "--repo", d], cwd=VERIF, env=env, capture_output=True, text=True, timeout=600)
             viol = [l.strip() for l in pr.stdout.splitlines() if l.strip().startswith("VIOLATED")]
             outs[prop] = {"rc": pr.returncode, "violated_rules": sorted({l.split()[2] for l in viol if len(l.split()) > 2}), "first": viol[0][:200] if viol else None}
@@ -87,6 +88,23 @@ def run_one(entry, evidence_dir):
         return res
     finally:
         shutil.rmtree(d, ignore_errors=True)
+
+
+def run_for_property(prop: str, jobs: int = 16):
+    entries = [e for e in M if prop in e[2]]
+    entries = [(e[0], e[1], [prop] if e[1] == "preserve" else e[2], e[3], e[4], e[5], e[6]) for e in entries if e[1] == "preserve" or e[2][0] == prop]
+    entries.append((f"{prop}-unparse-roundtrip", "preserve", [prop], None, "*unparse*", "", ""))
+    t0 = time.time()
+    evdir = tempfile.mkdtemp(prefix="indilint-selftest-ev-")
+    try:
+        with ThreadPoolExecutor(max_workers=jobs) as ex:
+            results = list(ex.map(lambda e: run_one(e, evdir), entries))
+    finally:
+        shutil.rmtree(evdir, ignore_errors=True)
+    summary = {}
+    for r_ in results:
+        summary[r_["status"]] = summary.get(r_["status"], 0) + 1
+    return {"wall_s": round(time.time() - t0, 1), "variants": len(results), "summary": summary, "results": results}
 
 
 def main(argv=None):
